@@ -3,18 +3,18 @@ open Model
 open Codec
 
 (* "s{name=k:data,...}link=..;errs=.." -> (name, kind, data) list *)
-let parse_snapshot (s : string) : (bytes * int * bytes) list =
+let parse_snapshot (s : string) : ((bytes * n) * bytes) list =
   let i = String.index s '{' and j = String.index s '}' in
   let inner = String.sub s (i + 1) (j - i - 1) in
   if inner = "" then [] else
   List.map (fun e ->
       match split_on '=' e with
       | [nm; v] -> (match split_on ':' v with
-                    | [k; d] -> (bytes_of_hex nm, int_of_string k, bytes_of_hex d)
+                    | [k; d] -> ((bytes_of_hex nm, n_of_int (int_of_string k)), bytes_of_hex d)
                     | _ -> failwith "snapshot entry")
       | _ -> failwith "snapshot entry") (split_on ',' inner)
 
-let last_snapshot (obs : string list) : (bytes * int * bytes) list option =
+let last_snapshot (obs : string list) : ((bytes * n) * bytes) list option =
   List.fold_left (fun acc o -> if String.length o > 1 && o.[0] = 's' && o.[1] = '{' then Some (parse_snapshot o) else acc) None obs
 
 let annotations (pre : string list) : (string * string) list =
@@ -55,7 +55,7 @@ let flw_oracle (prop : string) (case_toks : string list) (obs : string list) : s
   match items_of (strip ops), last_snapshot obs with
   | Some (c, items), Some files ->
     let start = match List.assoc_opt "start" ann with Some h -> Some (bytes_of_hex h) | None -> None in
-    let contents = List.map (fun (_, _, d) -> d) (List.filter (fun (_, k, _) -> k = 0 || k = 1) files) in
+    let contents = family_in_order c files in
     (match prop with
      | "C08" ->
        (match size_limit c with
